@@ -88,7 +88,20 @@ def dep_casts(run, F):
     run.floor('CAST', 'Cast impl instances (time types excluded)', n, 300)
 
 
-DEPS = {'casts': dep_casts, 'drivers': dep_drivers, 'isnone': dep_isnone, 'accessors': dep_accessors, 'agg_gates': dep_agg_gates}
+def dep_wrappers(run, F):
+    """the entry points users call are the #[no_out] wrappers: `self.<name>_to(params.., None)`"""
+    import C07
+    run.rule('WRAP.no_out', 'every #[no_out] wrapper is `self.<name>_to(params in order, None).unwrap()`')
+    C07.wrappers(run, F, F.config)
+
+
+def dep_fast_paths(run, F):
+    """backend overrides of the drivers are uninit(len) -> *_to -> assume_init or a delegation"""
+    import backends as B
+    B.check_fast_paths(run, F)
+
+
+DEPS = {'wrappers': dep_wrappers, 'fast_paths': dep_fast_paths, 'casts': dep_casts, 'drivers': dep_drivers, 'isnone': dep_isnone, 'accessors': dep_accessors, 'agg_gates': dep_agg_gates}
 
 
 def deps(run, F, *groups):
